@@ -4,7 +4,7 @@ import json, os, re, shutil, subprocess, time, threading
 from concurrent.futures import ThreadPoolExecutor
 from common import *
 
-KANI_TARGET = os.path.join(CACHE, "kani-target")
+KANI_TARGET = os.environ.get("XRAY_KANI_TARGET") or os.path.join(CACHE, "kani-target")  # selftest uses its own target dir
 COMPAT_AHASH = os.path.join(VERIF, "contracts", "kani", "compat", "ahash-0.7.6")
 INCRATE_SRC = os.path.join(VERIF, "contracts", "kani", "incrate")
 MINI_SRC = os.path.join(VERIF, "contracts", "kani", "mini")
